@@ -449,6 +449,43 @@ def table_entries(fa, expr, at, _depth=0):
     return None
 
 
+def record_fields(fa, name):
+    """Field names of the NamedTuple / namedtuple / dataclass `name` declared in the function's module or in the repository
+    module it is imported from; None when `name` is no such record."""
+    mods = [fa.fi.module]
+    origin = (getattr(fa.fi.module, "imports", {}) or {}).get(name)
+    if origin and ":" in origin:
+        m_, n_ = origin.split(":", 1)
+        other = fa.ck.repo.modules.get(m_.lstrip(".").split(".")[-1])
+        if other is not None:
+            mods, name = [other], n_
+    for mod in mods:
+        for st in mod.tree.body:
+            if isinstance(st, ast.Assign) and any(isinstance(t, ast.Name) and t.id == name for t in st.targets) and isinstance(st.value, ast.Call) \
+                    and A.call_attr(st.value) in ("NamedTuple", "namedtuple") and len(st.value.args) >= 2:
+                spec = st.value.args[1]
+                if isinstance(spec, (ast.List, ast.Tuple)):
+                    out = []
+                    for e in spec.elts:
+                        if isinstance(e, (ast.Tuple, ast.List)) and e.elts and A.const_str(e.elts[0]):
+                            out.append(A.const_str(e.elts[0]))
+                        elif A.const_str(e):
+                            out.append(A.const_str(e))
+                        else:
+                            return None
+                    return out or None
+                if A.const_str(spec):
+                    return A.const_str(spec).replace(",", " ").split() or None
+                return None
+            if isinstance(st, ast.ClassDef) and st.name == name:
+                is_nt = any("NamedTuple" in A.norm(b) for b in st.bases)
+                is_dc = any(A.norm(d.func if isinstance(d, ast.Call) else d).split(".")[-1] == "dataclass" for d in st.decorator_list)
+                if is_nt or is_dc:
+                    return [s_.target.id for s_ in st.body if isinstance(s_, ast.AnnAssign) and isinstance(s_.target, ast.Name)] or None
+                return None
+    return None
+
+
 def sequence_elements(fa, expr, at, _depth=0):
     """Element expressions of a sequence-building expression, in order: a display, a comprehension / generator over a
     literal sequence, tuple(...) / list(...) of one, a name bound to one.  None if not understood."""
@@ -461,6 +498,30 @@ def sequence_elements(fa, expr, at, _depth=0):
         return None if bs is None else [subst(expr.elt, b) for b in bs]
     if isinstance(expr, ast.Call) and A.call_dotted(expr) in ("tuple", "list") and len(expr.args) == 1 and not expr.keywords:
         return sequence_elements(fa, expr.args[0], at, _depth + 1)
+    if isinstance(expr, ast.Attribute) and expr.attr == "_fields" and isinstance(expr.value, ast.Name) and not fa.df.is_local(expr.value.id):
+        # the field names of a named tuple declared in the repository
+        fs = record_fields(fa, expr.value.id)
+        if fs is not None:
+            return [ast.copy_location(ast.Constant(value=f), expr) for f in fs]
+    if isinstance(expr, ast.Call) and not expr.keywords and len(expr.args) == 1 and not isinstance(expr.args[0], ast.Starred):
+        # operator.itemgetter(k1, k2, ...)(d) is (d[k1], d[k2], ...)
+        getter = expr.func
+        if isinstance(getter, ast.Name) and fa.df.is_local(getter.id):
+            g = _bound_value(fa, getter, at)
+            if g is not None:
+                getter = g
+        if isinstance(getter, ast.Call) and A.call_attr(getter) == "itemgetter" and not getter.keywords:
+            keys = []
+            for a in getter.args:
+                if isinstance(a, ast.Starred):
+                    sub_ = sequence_elements(fa, a.value, at, _depth + 1)
+                    if sub_ is None:
+                        return None
+                    keys += sub_
+                else:
+                    keys.append(a)
+            if len(keys) >= 2:
+                return [ast.copy_location(ast.Subscript(value=expr.args[0], slice=k, ctx=ast.Load()), expr) for k in keys]
     v = _bound_value(fa, expr, at)
     if v is not None:
         if isinstance(expr, ast.Name) and fa.df.is_local(expr.id):
